@@ -142,7 +142,10 @@ func ruleST3(c *Ctx) {
 				return
 			}
 			fa, ok := ld.X.(*ssa.FieldAddr)
-			if !ok || namedTypeName(fa.X.Type()) != "ergo.GlobalOptions" || fieldName(fa.X.Type(), fa.Field) != "StartDir" {
+			if !ok {
+				return
+			}
+			if on, isOpt := optionsFieldAddr(fa); !isOpt || on != "StartDir" {
 				return
 			}
 			k++
@@ -491,6 +494,11 @@ func (c *Ctx) startDirUses(src ssa.Value, search *ssa.Function) []string {
 						work = append(work, ld)
 					}
 					continue
+				}
+				if fa, isFA := x.Addr.(*ssa.FieldAddr); isFA {
+					if on, isOpt := optionsFieldAddr(fa); isOpt && on == "StartDir" {
+						continue // copied into the options' own start-directory field (a deprecated spelling folded into its group): read again from there
+					}
 				}
 				problems = append(problems, "stored at "+c.Pos(x.Pos()))
 			case *ssa.BinOp:
